@@ -30,6 +30,12 @@ CHECKS = {
    text="For every byte offset of files made of a save and 2-5 incremental saves, strict and partial load outcomes (error / applied set / queue / heads / view digest) must equal the specification's prediction from the chunk boundaries: last whole chunk for partial loads, boundaries only for strict loads, never a panic.", ref="§6 C13"),
  "C14": dict(cat="fault_enumeration", tech="Enumeration of single-bit flips of real files; the TLA+ trace spec (Trace_Storage Flips) requires every flip to be rejected",
    text="Every flipped bit (all bits in thorough tier, header bits + seeded sample in quick) of document+incremental files must make strict load fail; accepted-same, accepted-different and panic outcomes are violations.", ref="§6 C14", note="assumes: rejection rests on the 32-bit chunk checksum, the check observes that no enumerated flip collides; bundle bytes are covered by the C18 check once built"),
+ "C20": dict(cat="model_checking", tech="Explicit TLA+ model of the sync protocol (Sync.tla) model checked by TLC (NoStuck invariant, bounded liveness) + exhaustive transition-coverage replay of its behaviours into real Automerge/sync::State with forced Bloom false positives",
+   text="Sync.tla transcribes generate_sync_message / receive_sync_message / get_hashes_to_send; TLC explores every interleaving of edits, generates and receives for 2 peers with a persistent false positive and checks that a quiet network with nothing in flight has converged; every (state, transition) pair is replayed on the implementation and messages (heads, need, have, carried changes, flags) and all sync::State fields are compared after each step.", ref="§6 C20"),
+ "C21": dict(cat="model_checking", tech="Sync.tla with 3 peers, link drops losing in-flight messages, fresh and persisted (encode/decode) reconnects: TLC invariant NoStuck + replay of behaviours into the implementation",
+   text="Exhaustive for 2 peers with one drop, simulation for 3 peers with up to 3 drops (quick: 2); each behaviour replayed with real State::encode/decode.", ref="§6 C21"),
+ "C22": dict(cat="model_checking", tech="Sync.tla with set_read_only toggles: TLC action property ReadOnlyNeverApplies, invariant NoStuck after toggling back + exhaustive transition-coverage replay",
+   text="All interleavings of toggles (either side, messages in flight, concurrent edits) for 1-2 changes and up to 2-3 toggles are replayed on the implementation; the read-only peer's applied set/queue are compared after every receive, and catch-up after switching back is the NoStuck invariant.", ref="§6 C22"),
 }
 
 NA_REASON = "check not built yet in this session (framework under construction; see DESIGN.md §10 build order)"
